@@ -40,7 +40,9 @@ func vpC19Agree(step string, n NaturalLanguageValues, ref []vpKV, tags []LangRef
 	for _, t := range tags {
 		got := n.Get(t)
 		want, ok := vpRefGet(ref, t)
-		if ok {
+		if ok && len(want) == 0 {
+			vpAssert(step+"/get-present-empty", len(got) == 0)
+		} else if ok {
 			vpAssert(step+"/get-present", got != nil && bytes.Equal(got, want))
 		} else {
 			vpAssert(step+"/get-absent", got == nil)
@@ -55,6 +57,9 @@ func vpC19Hist(h int) {
 	for step := 0; step < h; step++ {
 		tag := tags[vpChoice(len(tags))]
 		val := Content{vpByte()}
+		if vpBool() {
+			val = Content{} // an entry may hold an empty text: the tag is present all the same
+		}
 		switch vpChoice(3) {
 		case 0: // Set
 			old := make([]vpKV, len(ref))
